@@ -1,9 +1,9 @@
 #!/bin/bash
-# usage: tools/seed_validate.sh <seed-out-dir> <ID> <A|B>
+# usage: tools/seed_validate.sh <seed-out-dir> <ID> <A|B> [name-under-seeded]
 # confirms in a scratch worktree of /repo HEAD: patch applies, builds, baseline passes with it, demo fails with it,
 # demo passes without it. On success copies the seed to /verif/seeded/<ID>-<X>/.
 set -u
-OUT="$1"; ID="$2"; X="$3"
+OUT="$1"; ID="$2"; X="$3"; NAME="${4:-$3}"   # NAME: letter used under /verif/seeded (round 2: C, D)
 export GOFLAGS=-mod=mod GOPROXY=off GOSUMDB=off GOTOOLCHAIN=local
 P="$OUT/$ID/$X.patch.diff"; D="$OUT/$ID/${X}_demo_test.go"; M="$OUT/$ID/$X.meta.json"
 [ -f "$P" ] && [ -f "$D" ] || { echo "SEED $ID-$X missing files"; exit 2; }
@@ -25,7 +25,7 @@ if go test -count=1 -vet=off "./$dir/" >/tmp/sv.$$.without 2>&1; then without=pa
 rm -f "$dir/zz_seed_demo_test.go"
 echo "SEED $ID-$X baseline_with_change=$base demo_with_change=$with demo_without_change=$without dir=$dir"
 if [ $base = pass ] && [ $with = fail ] && [ $without = pass ]; then
-  S=/verif/seeded/$ID-$X; mkdir -p "$S"
+  S=/verif/seeded/$ID-$NAME; mkdir -p "$S"
   cp /tmp/sv-$ID-$X.rebased.diff "$S/patch.diff"; cp "$D" "$S/demo_test.go"
   python3 - "$M" "$S/meta.json" "$ID" "$dir" <<'PY'
 import json,sys
